@@ -124,6 +124,19 @@ class Lexer:
             lineno=t.lineno,
         )
 
+    def parse_decimal(self, t: LexToken, digits: str) -> int:
+        """Converts decimal digits to an integer, reports a lexer error if the
+        interpreter refuses to (e.g. too many digits)."""
+        try:
+            return int(digits)
+        except ValueError:
+            raise LexerError(
+                message="Invalid integer",
+                filepath=self.current_filepath(),
+                token=t.value[:32],
+                lineno=t.lineno,
+            )
+
     def t_newline(self, t: LexToken) -> LexToken:
         r"\n"
         t.lexer.lineno += 1
@@ -144,7 +157,7 @@ class Lexer:
 
     def t_UINT_TYPE(self, t: LexToken) -> LexToken:
         r"\buint[0-9]+\b"
-        cap: int = int(t.value[4:])  # uint{n}
+        cap: int = self.parse_decimal(t, t.value[4:])  # uint{n}
         t.value = Uint(
             cap=cap, token=t.value, lineno=t.lineno, filepath=self.current_filepath()
         )
@@ -152,7 +165,7 @@ class Lexer:
 
     def t_INT_TYPE(self, t: LexToken) -> LexToken:
         r"\bint[0-9]+\b"
-        cap: int = int(t.value[3:])
+        cap: int = self.parse_decimal(t, t.value[3:])
         t.value = Int(
             cap=cap, token=t.value, lineno=t.lineno, filepath=self.current_filepath()
         )
@@ -172,7 +185,7 @@ class Lexer:
         r"[0-9]+"
         # NOTE: Currently only non-negative integers are supported.
         # FIXME Negative integers?
-        t.value = int(t.value)
+        t.value = self.parse_decimal(t, t.value)
         return t
 
     def t_BOOL_LITERAL(self, t: LexToken) -> LexToken:
